@@ -67,9 +67,9 @@ def gen(tier, seed):
             for lon in LON1:
                 yield {'ell': ell, 'lat': lat, 'lon': lon, 'az': az, 'dist': ds, 'kind': 'float'}
     for ell in ('grs80', 'ans'):
-        for lat in (-37.95103342, 0.0, 45.5):
-            for kind in cfg.INTYPES[1:]:
-                yield {'ell': ell, 'lat': lat, 'lon': 144.42486789, 'az': [0.0, 0.15, 306.868159, 180.0], 'dist': [54972.271, 1e6],
+        for lat, lon in ((-37.95103342, 144.42486789), (0.0, 144.42486789), (45.5, -0.45), (-0.3, 10.0)):
+            for kind in cfg.INTYPES[1:] + cfg.NUMFORMS:
+                yield {'ell': ell, 'lat': lat, 'lon': lon, 'az': [0.0, 0.15, 306.868159, 180.0], 'dist': [54972.271, 1e6],
                        'kind': kind}
 
 
@@ -123,7 +123,7 @@ def ev(case, rec):
                 except Exception:
                     rec.skip('input object of class %s could not be built (C08)' % kind)
                     continue
-                st, r = rec.call(vincdir, la, lo, az_o, s, ELLS[ell])
+                st, r = rec.call(vincdir, cfg.unwrap(la), cfg.unwrap(lo), cfg.unwrap(az_o), s, ELLS[ell])
                 st2, r2 = rec.call(vincdir, la.dec(), lo.dec(), az_o.dec(), s, ELLS[ell])
                 rec.nontriv((ell, lat, lon, az, s, kind))
                 if st != 'ok' or st2 != 'ok' or tuple(r) != tuple(r2):
